@@ -984,6 +984,13 @@ def write_evidence(prop, mod, reg, gens, obl, extra, tier, seed, wall, solver_ms
     for g in gens:
         funcs.append({"contract": g["contract"], "cfg": g["cfg"], "paths": g["npaths"], "exits": g["exits"],
                       **g["source"]})
+    for cf in extra.get("c_functions", []):
+        try:
+            sha = hashlib.sha256(open(os.path.join(os.environ.get("VERIF_REPO", "/repo"), cf["file"]), "rb").read()).hexdigest()
+        except OSError:
+            sha = None
+        funcs.append({"contract": cf["function"], "cfg": "-", "paths": cf["paths"], "exits": cf["exits"],
+                      "file": cf["file"], "language": "C (clang AST, bit-vector VCs)", "file_sha256": sha})
     samples = []
     for s in all_scripts[:400]:
         if len(samples) >= 3:
@@ -1006,7 +1013,8 @@ def write_evidence(prop, mod, reg, gens, obl, extra, tier, seed, wall, solver_ms
             "obligations": n_total, "discharged": n_dis,
             "checker_cmd": f"./check {prop} --tier {tier}",
             "trusted_base": list(getattr(mod, "TRUSTED", [])) + [
-                "own VC generator vc/ (python AST -> SMT-LIB), guarded by canaries, exit-feasibility checks and selftest/",
+                "own VC generators vc/ (python AST -> SMT-LIB; clang JSON AST -> bit-vector VCs), guarded by canaries, "
+                "exit-feasibility checks, cvc5 re-check of the C queries and the seeded changes under seeded/",
                 "cvc5 1.0.3, z3 5.1.0", "python semantics per DESIGN.md 3.1 (ints exact, floats as reals, bytes/str as code point sequences)"],
             "functions_under_contract": funcs,
             "assumed_contracts": callee_only,
